@@ -11,20 +11,6 @@ namespace BFL
 namespace Extract
 open Complex
 
-/-- the buffer operation a call performs on `hist_buffer_` (if any) -/
-noncomputable def bufOp (eps : ℝ) (s : EE ℝ) : Call ℝ → Option (HistBuf.Op (List ℝ))
-  | .setMethod _ => none
-  | .setWindow n => if n > 0 then some (.set n.toNat) else none
-  | .clear => some .clear
-  | .move => none
-  | .extract2 a => (pushed eps s (.extract2 a)).map HistBuf.Op.add
-  | .extract5 a => (pushed eps s (.extract5 a)).map HistBuf.Op.add
-
-/-- the buffer operations of a call sequence (the state is threaded: whether a call pushes depends on the method) -/
-noncomputable def bufOps (eps : ℝ) (s : EE ℝ) : List (Call ℝ) → List (HistBuf.Op (List ℝ))
-  | [] => []
-  | c :: cs => (bufOp eps s c).toList ++ bufOps eps (step eps s c).1 cs
-
 theorem windowed_hist (s : EE ℝ) (f : Fam) (b : List ℝ) : (windowed s f b).1.hist = s.hist.add b := by
   simp [windowed]
 
@@ -56,6 +42,44 @@ theorem runFrom_hist (eps : ℝ) (s : EE ℝ) (cs : List (Call ℝ)) :
   | cons c cs ih =>
     simp only [runFrom, List.foldl_cons, bufOps, List.foldl_append] at ih ⊢
     rw [ih, step_hist]
+
+/-! ### two objects with hand-over -/
+
+theorem hists_set (p : Pool ℝ) (i : Bool) (s : EE ℝ) : (p.set i s).hists = p.hists.set i s.hist := by
+  cases i <;> rfl
+
+theorem hists_get (p : Pool ℝ) (i : Bool) : p.hists.get i = (p.get i).hist := by
+  cases i <;> rfl
+
+theorem pair_set_get {β : Type} (P : HistBuf.Pair β) (i : Bool) : P.set i (P.get i) = P := by
+  cases i <;> rfl
+
+theorem poolStep_hists (eps : ℝ) (p : Pool ℝ) (c : PoolCall ℝ) :
+    (poolStep eps p c).1.hists = (poolBufOp eps p c).foldl HistBuf.step2 p.hists := by
+  cases c with
+  | call c =>
+    simp only [poolStep, poolBufOp, hists_set, step_hist]
+    cases bufOp eps (p.get p.cur) c with
+    | none => simp [← hists_get, pair_set_get]
+    | some o => simp [HistBuf.step2, hists_get]
+  | moveCtor =>
+    simp only [poolStep, poolBufOp, hists_set, List.foldl_cons, List.foldl_nil, HistBuf.step2, HistBuf.moveOut,
+      hists_get]
+    rfl
+  | moveAssign =>
+    have hne : ¬ (p.cur = !p.cur) := by cases p.cur <;> simp
+    simp only [poolStep, poolBufOp, hists_set, List.foldl_cons, List.foldl_nil, HistBuf.step2, HistBuf.moveOut,
+      hists_get, if_neg hne]
+    rfl
+  | toggle => rfl
+
+theorem poolRun_hists (eps : ℝ) (p : Pool ℝ) (cs : List (PoolCall ℝ)) :
+    (cs.foldl (fun p c => (poolStep eps p c).1) p).hists = (poolBufOps eps p cs).foldl HistBuf.step2 p.hists := by
+  induction cs generalizing p with
+  | nil => rfl
+  | cons c cs ih =>
+    simp only [List.foldl_cons, poolBufOps, List.foldl_append]
+    rw [ih, poolStep_hists]
 
 /-! ### convex combinations stay in the hull -/
 
